@@ -36,6 +36,7 @@ def ball(radius, Ps=(1, 2, 3)):
         'tend': ['far', 'two_and_a_half', 'inside_first'],
         'limiter': list(LIMITERS),
         'K': [1, 2],
+        'L': [1, 2],
     }
     base = {k: v[0] for k, v in dims.items()}
     base['P'] = 3
@@ -64,6 +65,8 @@ def to_cfg(c, **extra):
     return cfg(
         P=P,
         K=c['K'],
+        L=c.get('L', 1),
+        predict='pfasst_burnin' if c.get('L', 1) > 1 else None,
         Tend=tend,
         adaptive={'e_tol': 1.0, **LIMITERS[c['limiter']]},
         restarting={'max_restarts': c['max_restarts'], 'restart_from_first_step': c['from_first'], 'crash_after_max_restarts': c['crash']},
